@@ -214,3 +214,25 @@ def replay_one(modname, tier, seed, replay):
     except CaseTimeout:
         rec.violation(f"timeout:{replay['fn']}", 'did not finish', replay['fn'], replay['args'])
     return rec.violations
+
+
+# ---------------------------------------------------------------------------------------------
+# Explorer D: deviation-bounded enumeration over a fixed list of choice points
+def deviations(domains, k):
+    """domains: list of alternative counts per choice point (alternative 0 = default).
+    Yields every assignment (tuple of indexes) with at most k non-default choices, ordered by the
+    number of deviations, so the first counterexample has the fewest."""
+    import itertools
+    n = len(domains)
+    for dev in range(0, k + 1):
+        for points in itertools.combinations(range(n), dev):
+            ranges = [range(1, domains[p]) for p in points]
+            for alts in itertools.product(*ranges):
+                a = [0] * n
+                for p, v in zip(points, alts):
+                    a[p] = v
+                yield tuple(a)
+
+
+def count_deviations(domains, k):
+    return sum(1 for _ in deviations(domains, k))
